@@ -125,6 +125,16 @@ TABLE = {
             "shapes and discs is an EITHER-band declared in the spec).",
             "TLC, lattice geometry; known finding: Circle.shapely_object has half the radius (cannot be repaired: a pinned "
             "test encodes it)"),
+    "C05": ("Transform.tla / MC_Transform.tla / Trace_Transform.tla",
+            "Rotations are tokens <<c, s, den, turns>> with c^2 + s^2 = den^2 (axis, Pythagorean and small angles on both "
+            "sides of 0.05, near +-2pi), so the image of an integer point is an exact rational; the spec defines which "
+            "components each of 15 levels (scenario ... shape) must move; TLC checks distance / area preservation, both "
+            "undo forms, union-of-parts and scope laws exactly, and two deviation constants reproduce the shipped defects. "
+            "Every (level, translation, rotation token, role mix) plus seeded random float angles is applied to a feature-"
+            "rich real scenario + planning problem set; Python logs the nearest integer numerator and an exactness flag "
+            "per point (fractions), the spec compares with Image, decides moved / unmoved per scope, orientations modulo a "
+            "turn, derived quantities and the undo law.",
+            "TLC, exact rational rotation tokens, fractions-based residual classification in the projection"),
 }
 
 PENDING_REASON = "check not built yet in this round (specification module planned in DESIGN.md section 4); not claimed"
